@@ -49,7 +49,7 @@ class CutHandler(logging.Handler):
     def emit(self, record):
         fn = record.funcName
         if record.exc_info:
-            if fn == "_run_event_loop" and record.levelno == logging.ERROR and record.exc_info[1] is not None:
+            if fn in ("_run_event_loop", "timer_thread") and record.levelno == logging.ERROR and record.exc_info[1] is not None:
                 self.rec.log.append(("err", err_code(record.exc_info[1])))
             return
         if record.levelno != logging.ERROR:
@@ -68,6 +68,11 @@ class Rec:
         self.log = []
         self.ids = am.index_by_id()
         self.tid_of = {}
+        self.svc_calls = []
+        self.clock = lambda: 0.0
+
+    def now(self):
+        return int(self.clock() + 1e-6)
 
     def cfg(self, interp):
         return sorted(self.ids[n.id] for n in interp._active_state_nodes)
@@ -83,9 +88,9 @@ def tag_of(ev):
     return 0
 
 
-def build_logic(am: AM, rec: Rec):
+def build_logic(am: AM, rec: Rec, engine="sync", sched=None):
     from xstate_statemachine import MachineLogic
-    actions, guards = {}, {}
+    actions, guards, services = {}, {}, {}
 
     def scan_act(a):
         if a[0] == "mark":
@@ -98,6 +103,21 @@ def build_logic(am: AM, rec: Rec):
                 rec.log.append(("act", k, ev.type, tag_of(ev)))
                 raise RuntimeError("fail %d" % k)
             actions["f%d" % k] = f
+        elif a[0] == "slow":
+            k, d = a[1], a[2]
+            if engine == "async":
+                async def sl(i, ctx, ev, ad, k=k, d=d):
+                    rec.log.append(("act", k, ev.type, tag_of(ev)))
+                    await asyncio.sleep(d / 1000.0)
+                    rec.log.append(("clock", rec.now()))
+                actions["s%d" % k] = sl
+            else:
+                def sl(i, ctx, ev, ad, k=k, d=d):
+                    rec.log.append(("act", k, ev.type, tag_of(ev)))
+                    if sched is not None:
+                        sched.sleep(d)
+                    rec.log.append(("clock", rec.now()))
+                actions["s%d" % k] = sl
 
     def scan_guard(g):
         if g[0] == "raises":
@@ -120,7 +140,26 @@ def build_logic(am: AM, rec: Rec):
             scan_act(a)
         if t.guard is not None:
             scan_guard(t.guard)
-    return MachineLogic(actions=actions, guards=guards)
+    for n in am.nodes:
+        for inv in n.invoke:
+            if not inv.src:
+                continue
+            name = "svc%d_%s" % (inv.src, inv.iid.replace(".", "_"))
+            if engine == "async":
+                async def svc(i, ctx, ev, inv=inv):
+                    rec.svc_calls.append((inv.iid, dict(ev.payload)))
+                    await asyncio.sleep(inv.dur / 1000.0)
+                    if not inv.ok:
+                        raise RuntimeError("service %s failed" % inv.iid)
+                    return inv.val
+            else:
+                def svc(i, ctx, ev, inv=inv):
+                    rec.svc_calls.append((inv.iid, dict(ev.payload)))
+                    if not inv.ok:
+                        raise RuntimeError("service %s failed" % inv.iid)
+                    return inv.val
+            services[name] = svc
+    return MachineLogic(actions=actions, guards=guards, services=services)
 
 
 def make_plugin(rec: Rec, hook_faults=False):
@@ -133,6 +172,7 @@ def make_plugin(rec: Rec, hook_faults=False):
     class Obs(PluginBase):
         def on_event_received(self, interp, event):
             rec.log.append(("begin", event.type, tag_of(event)))
+            rec.log.append(("clock", rec.now()))
             boom("on_event_received")
 
         def on_transition(self, interp, from_states, to_states, transition):
@@ -161,6 +201,10 @@ def make_plugin(rec: Rec, hook_faults=False):
         def on_done(self, interp, output):
             rec.log.append(("done", output))
             boom("on_done")
+
+        def on_error(self, interp, error):
+            rec.log.append(("fail",))
+            boom("on_error")
     return Obs()
 
 
@@ -325,8 +369,27 @@ def flat_log(log, raw_rearm=False):
             out += [TS(k), TN(o[1])]
         elif k == "emit":
             out += [TS("emit"), TN(o[1]), TN(o[2])]
+        elif k == "fail":
+            out += [TS("fail")]
+        elif k == "clock":
+            out += [TS("clock"), TN(o[1])]
         i += 1
     return out
+
+
+def armed_owners(interp, rec):
+    """owners (state indices, with multiplicity) of the timers / service tasks that are still armed"""
+    owners = []
+    tm = getattr(interp, "task_manager", None)
+    if tm is not None:
+        for owner, tasks in tm._tasks_by_owner.items():
+            if owner in rec.ids:
+                owners += [rec.ids[owner]] * sum(1 for t in tasks if not t.done())
+    for key in getattr(interp, "_after_events", {}):
+        owner = key.split("::")[0]
+        if owner in rec.ids:
+            owners.append(rec.ids[owner])
+    return sorted(owners)
 
 
 def flat_state(am: AM, interp, rec: Rec, queue_items, raw_rearm=False):
@@ -344,6 +407,8 @@ def flat_state(am: AM, interp, rec: Rec, queue_items, raw_rearm=False):
     out += [TS("status"), TN(STATUS.get(interp.status, 9))]
     out.append(TS("output"))
     out += [TS("none")] if interp.output is None else [TZ(interp.output)]
+    out.append(TS("armed"))
+    out += [TN(x) for x in armed_owners(interp, rec)]
     out.append(TS("log"))
     out += flat_log(rec.log, raw_rearm)
     return out
@@ -399,9 +464,14 @@ def run_sync(am: AM, events, cfg_opts=None, seed_ctx=None, per_event=True, probe
     rec = Rec(am)
     snaps = []
     h = attach_log_handler(rec)
+    sched = uninstall = None
+    if needs_clock(am) or any(e[0] == "at" for e in events):
+        from harness import vthreads
+        sched, uninstall = vthreads.install()
+        rec.clock = lambda: sched.clock
     try:
         try:
-            machine = create_machine(am.to_config(**(cfg_opts or {})), logic=build_logic(am, rec))
+            machine = create_machine(am.to_config(**(cfg_opts or {})), logic=build_logic(am, rec, "sync", sched))
         except Exception as exc:
             return [[TS("create-error"), TN(err_code(exc))]]
         index_transitions(am, machine, rec)
@@ -421,13 +491,20 @@ def run_sync(am: AM, events, cfg_opts=None, seed_ctx=None, per_event=True, probe
             rec.log.append(("err", err_code(exc)))
         snap()
         for ev in events:
-            if probe_can and ev[0] != "burst":
+            if probe_can and ev[0] not in ("burst", "at"):
                 rec.log.append(("can", bool(it.can(make_event(ev)))))
             try:
-                if ev[0] == "burst":
-                    with_timeout(4, lambda: it.send_events([make_event(e) for e in ev[1]]))
+                if ev[0] == "at":
+                    with_timeout(4, lambda: sched.advance(ev[1]))
+                    evs = ev[2]
+                elif ev[0] == "burst":
+                    evs = ev[1]
                 else:
-                    with_timeout(4, lambda: it.send(make_event(ev)))
+                    evs = [ev]
+                if len(evs) == 1:
+                    with_timeout(4, lambda: it.send(make_event(evs[0])))
+                elif evs:
+                    with_timeout(4, lambda: it.send_events([make_event(e) for e in evs]))
             except Timeout:
                 snaps.append([TS("TIMEOUT")])
                 return snaps
@@ -443,7 +520,17 @@ def run_sync(am: AM, events, cfg_opts=None, seed_ctx=None, per_event=True, probe
             pass
         return snaps
     finally:
+        if uninstall is not None:
+            try:
+                uninstall()
+            except BaseException:
+                pass
         detach_log_handler(h)
+
+
+def needs_clock(am):
+    return any(n.after or n.invoke or any(a[0] == "slow" for a in n.entry + n.exit) for n in am.nodes) or \
+        any(a[0] == "slow" for t in am.all_trans() for a in t.actions)
 
 
 # --------------------------------------------------------------------------
@@ -474,19 +561,20 @@ class VLoop(asyncio.SelectorEventLoop):
 
 
 async def quiesce(it, extra=3):
-    """Wait until the interpreter's queue is drained (or it stopped consuming)."""
+    """Wait until the interpreter's queue is drained (or it stopped consuming).  While the consumer is suspended
+    inside a slow action virtual time must be allowed to pass, in steps much finer than the 1 ms grid."""
     idle = 0
-    for _ in range(200000):
+    for _ in range(400000):
         task = it._event_loop_task
-        busy = (not it._event_queue.empty() and it.status == "running" and task is not None and not task.done()) \
-            or getattr(it, "_processing", False)
+        processing = getattr(it, "_processing", False)
+        busy = (not it._event_queue.empty() and it.status == "running" and task is not None and not task.done()) or processing
         if busy:
             idle = 0
         else:
             idle += 1
             if idle > extra:
                 return
-        await asyncio.sleep(0)
+        await asyncio.sleep(0.00005 if processing else 0)
 
 
 def run_async(am: AM, events, cfg_opts=None, seed_ctx=None, per_event=True, probe_can=False, hook_faults=False, raw_rearm=False):
@@ -497,7 +585,7 @@ def run_async(am: AM, events, cfg_opts=None, seed_ctx=None, per_event=True, prob
 
     async def main():
         try:
-            machine = create_machine(am.to_config(**(cfg_opts or {})), logic=build_logic(am, rec))
+            machine = create_machine(am.to_config(**(cfg_opts or {})), logic=build_logic(am, rec, "async"))
         except Exception as exc:
             snaps.append([TS("create-error"), TN(err_code(exc))])
             return
@@ -517,12 +605,22 @@ def run_async(am: AM, events, cfg_opts=None, seed_ctx=None, per_event=True, prob
         await quiesce(it)
         snap()
         for ev in events:
-            if probe_can and ev[0] != "burst":
+            if probe_can and ev[0] not in ("burst", "at"):
                 rec.log.append(("can", bool(it.can(make_event(ev)))))
-            if ev[0] == "burst":
-                await it.send_events([make_event(e) for e in ev[1]])
+            if ev[0] == "at":
+                # let virtual time pass a hair beyond t so that everything due at t has fired and been processed
+                lp = asyncio.get_event_loop()
+                await asyncio.sleep(max(0.0, ev[1] / 1000.0 + 0.0001 - lp.time()))
+                await quiesce(it)
+                evs = ev[2]
+            elif ev[0] == "burst":
+                evs = ev[1]
             else:
-                await it.send(make_event(ev))
+                evs = [ev]
+            if len(evs) == 1:
+                await it.send(make_event(evs[0]))
+            elif evs:
+                await it.send_events([make_event(e) for e in evs])
             await quiesce(it)
             if per_event:
                 snap()
@@ -534,6 +632,7 @@ def run_async(am: AM, events, cfg_opts=None, seed_ctx=None, per_event=True, prob
             pass
 
     loop = VLoop()
+    rec.clock = lambda: loop.time() * 1000.0
     loop.set_exception_handler(lambda *a: None)
     timed_out = False
     try:
